@@ -136,7 +136,12 @@ SceneOK(sc) ==
 \* plus tens of thousands of triangles that cover no pixel centre, in one call, under sort none /
 \* front-to-back / back-to-front (depth test Less, writes on).  The padding draws nothing and the sort
 \* setting does not matter: all four are equal.
-BigCallAllowed(e) == e.panic = 0 /\ \A i \in 2..4 : e.planes[i] = e.planes[1]
+BigCallAllowed(e) ==
+  /\ e.panic = 0 /\ \A i \in 2..4 : e.planes[i] = e.planes[1]
+  \* e.pp: colour planes of three large triangles at disjoint depths spread over the same very large call (nearest
+  \* first, farthest last), <<depth-tested, painter (depth test off, back-to-front sorting)>>: the same image,
+  \* and not the background (the triangles do cover pixels)
+  /\ e.pp[1] = e.pp[2] /\ \E i \in 1..Len(e.pp[1]) : e.pp[1][i] # e.pp[1][1] \/ Len(e.pp[1]) = 1
 
 \* ---------------------------------------------------------------- theorems
 \* checked by MC_Target on the specification itself
